@@ -288,12 +288,12 @@ func TestC09(t *testing.T) {
 	vlib.Run(t, "C09", func(c *vlib.Case) {
 		dir, err := os.MkdirTemp("", "verif-c09-")
 		if err != nil {
-			c.Fatalf("harness: %v", err)
+			c.Harnessf("%v", err)
 		}
 		defer os.RemoveAll(dir)
 		jwksPath, err := writeJWKS(dir)
 		if err != nil {
-			c.Fatalf("harness: %v", err)
+			c.Harnessf("%v", err)
 		}
 		a := authConfs[c.Pick("keyConf", len(authConfs))]
 		if c.Bool("audIss") {
@@ -319,7 +319,7 @@ func TestC09(t *testing.T) {
 			}
 		})
 		if err != nil {
-			c.Fatalf("harness: start cluster: %v", err)
+			c.Harnessf("start cluster: %v", err)
 		}
 		defer cl.Stop()
 		n0 := cl.Nodes[0]
@@ -327,7 +327,7 @@ func TestC09(t *testing.T) {
 		if port == "proxy" {
 			up, err = ConnectUpstream(context.Background(), n0, "u0", "e1", "sdk-http", UpstreamOpts{})
 			if err != nil {
-				c.Fatalf("harness: connect: %v", err)
+				c.Harnessf("connect: %v", err)
 			}
 			defer up.Disconnect()
 		}
@@ -335,7 +335,7 @@ func TestC09(t *testing.T) {
 			c.Fatalf("C09: cluster did not form")
 		}
 		if up != nil && !Eventually(Deadline(), func() bool { return n0.Srv.ClusterState().LocalEndpointListeners("e1") == 1 }) {
-			c.Fatalf("harness: upstream registration not visible")
+			c.Harnessf("upstream registration not visible")
 		}
 		// enumerate the port's route table
 		var routes []routeReq
@@ -366,7 +366,7 @@ func TestC09(t *testing.T) {
 		}
 		c.Header["routes"] = len(routes)
 		if len(routes) < 3 {
-			c.Fatalf("harness: route table of %s has only %d routes", port, len(routes))
+			c.Harnessf("route table of %s has only %d routes", port, len(routes))
 		}
 		reachedValid := 0
 		for q, nq := 0, c.Int("pairs", 8, 40); q < nq; q++ {
